@@ -28,6 +28,45 @@ def corpus_cases():
     return out
 
 
+def consensus_column_witness(run, case, entry):
+    """F14: align(); get_consensus(); save; load - the 'consensus' column of the words of an aligned cognate set is a
+    list of segments before and the blank-joined string after.  Recorded way = exactly that, every other cell intact."""
+    from lingpy import Alignments
+    data = {int(k): [list(c) if isinstance(c, list) else c for c in row] for k, row in case["data"].items()}
+    obj = Alignments(data, ref="cogid")
+    obj.align(method="progressive")
+    obj.get_consensus()
+    path = ser.fresh("k")
+    obj.output("tsv", filename=path, prettify=False, ignore="all")
+    try:
+        loaded = Alignments(path + ".tsv", ref="cogid")
+        a, b = ser.observe(obj), ser.observe(loaded)
+    finally:
+        os.remove(path + ".tsv")
+    rows_b = dict(b[2])
+    ci = a[1].index("consensus") if "consensus" in a[1] else None
+    recorded = gone = a[1] == b[1] and ci is not None and set(dict(a[2])) == set(rows_b)
+    lists = 0
+    for k, cells in (a[2] if recorded else []):
+        for j, (x, y) in enumerate(zip(cells, rows_b[k])):
+            if j == ci and x[0] == "list":
+                lists += 1
+                recorded = recorded and y == ("str", " ".join(x[1]))
+                gone = gone and y == x
+            else:
+                recorded = recorded and x == y
+                gone = gone and x == y
+    if recorded and lists and entry is not None:
+        run.known_finding("%s consensus-column-type: %s" % (entry.get("id", ""), entry.get("what", "")))
+        return "still fails as recorded"
+    if gone and lists:
+        return "no longer fails"
+    run.violation({"stream": "known_witness", "signature": "consensus-column-type", "kind": "the witness of a known "
+                   "finding fails in another way than recorded (or is not listed in known_findings.json)",
+                   "saved": a, "loaded": b}, no_input=False)
+    return "fails differently"
+
+
 def known_witnesses(run, d):
     """F12 / F13 (known_findings.json, status 'known'): replay the recorded witness (corpus/serialize/known_*.json) on
     the implementation.  While it still fails in the recorded way - the file cannot be loaded, and the faithful model
@@ -38,6 +77,9 @@ def known_witnesses(run, d):
     for p in sorted(glob.glob(os.path.join(env.VERIF, "corpus", "serialize", "known_*.json"))):
         w = json.load(open(p, encoding="utf8"))
         sig, case = w["signature"], w["case"]
+        if sig == "consensus-column-type":
+            out[sig] = consensus_column_witness(run, case, entries.get(sig))
+            continue
         res = ser.blk_run(case)
         bad = coqrun.eval_cases(d, "known_" + sig.replace("-", "_"), ser.IMPORTS, "blk_case", "blk_case_code",
                                 [ser.BLK.render(case, res)])
